@@ -172,6 +172,11 @@ func VerifH_grpcweb() {
 	srv.reply.payload = vfBytes(vfLen(vfBound(3, 4))) // all residues mod 3
 	tv := vfPlainString(2)
 	srv.setTrail = metadata.MD{"x-t": []string{tv}}
+	if vfBool() {
+		// the same key as header AND trailer metadata: both must arrive
+		srv.setHdr = metadata.MD{"x-t": []string{"hdr"}}
+		vfCover("same-key-header-and-trailer")
+	}
 	payload := vfBytes(vfLen(2))
 	frame := append([]byte{0, 0, 0, 0, byte(len(payload))}, payload...)
 	ct := "application/grpc-web+fake"
